@@ -12,7 +12,9 @@ batching, two-argument arithmetic between actions whose coordinate values differ
 concatenate, select, transform with functions that return the action they were given, expand,
 broadcast, flatten).  Every program carries two designed pairs of callables that differ in ONE
 ingredient of their identity (receiver, closure content, default, wrapped function ...) and ends by
-mapping each of them over the same action with the same statics.  Every program is built TWICE from
+mapping each of them over the same action with the same statics, followed by operations whose nodes differ
+in the ORDER of their inputs only (x op y and y op x, a reduction over join(x, y) and over join(y, x)).
+Every program is built TWICE from
 its recorded spec, with freshly created function objects / bound methods / objects with a __repr__
 (objects without one are the program's own and shared by the two builds: their address is their
 identity).
@@ -31,8 +33,8 @@ labels); (b) the operation sequence with the arrays of ALL actions after every o
 (NamesCheck.check_ops: the heap model with aliasing and in-place primitives); (c) per program, what
 every callable handed to the API is made of (module, qualified name, code and nested code constants,
 defaults, closure contents, repr of the receiver / of the object: read off the Python objects here)
-+ the digest the real callable_id gives -> Coq (CallableCheck.check_callables: equal digest exactly
-for equal descriptions, i.e. the model Fluent/Callable.v of callable_id)."""
++ its __name__ + the digest in the name of Node(callable) -> Coq (CallableCheck.check_callables: equal
+digest exactly for equal descriptions and names, i.e. the model Fluent/Callable.v of callable_id)."""
 import functools
 import hashlib
 import json
@@ -617,13 +619,16 @@ def apply_op(o, actions, world):
     raise ValueError(k)
 
 
-def probe_ops(rng, prog):
-    """the designed pairs of the program, each member mapped over the same action with the same statics
-    (plain, with a static argument, as functools.partial): nodes that differ in their callable only"""
+def probe_ops(rng, prog, snaps):
+    """the designed pairs of the program, each member applied to the same action with the same statics
+    (map or reduce; plain, with a static argument, with a keyword, as functools.partial): nodes that differ in their
+    callable only.  On the action with the fewest cells: one or two nodes per probe."""
     out = []
+    sizes = [len(t["names"]) for t in snaps]
+    small = [ix for ix, n in enumerate(sizes) if n == min(x for x in sizes if x > 0)]
     for fam, pair in prog.get("pairs", []):
-        i = rng.randrange(len(prog["sources"]))
-        shape = rng.choice(["plain", "plain", "args", "kwargs", "partial"])
+        i = rng.choice(small)
+        shape = rng.choice(["plain", "plain", "args", "kwargs", "partial", "reduce"])
         for spec in pair:
             o = {"op": "map", "self": i, "fn": spec, "probe": fam}
             if shape == "args":
@@ -632,8 +637,49 @@ def probe_ops(rng, prog):
                 o["kwargs"] = {"p": 1}
             elif shape == "partial":
                 o["args"], o["via"] = [1], "partial"
+            elif shape == "reduce" and snaps[i]["dims"]:
+                o.update({"op": "reduce", "dim": snaps[i]["dims"][0], "keep": False})
             out.append(o)
     return out
+
+
+def swap_steps(rng, pool):
+    """nodes that differ in the ORDER of their inputs only: x op y and y op x for two actions over the same coordinates,
+    and one reduction over join(x, y) and over join(y, x).  Each step looks at the arrays as they are when its turn comes
+    (None = not possible here, skipped)."""
+    st = {}
+    tag = "swapped-inputs"
+
+    def pick(snaps):
+        small = sorted(range(len(snaps)), key=lambda ix: (len(snaps[ix]["names"]), ix))
+        cands = [(i, j) for i in small for j in small if i < j and snaps[i]["dims"] and snaps[i]["dims"] == snaps[j]["dims"]
+                 and snaps[i]["labels"] == snaps[j]["labels"] and snaps[i]["scal"] == snaps[j]["scal"] and not snaps[i]["unl"]
+                 and snaps[i]["names"] != snaps[j]["names"] and 0 < len(snaps[i]["names"]) <= 4]
+        if not cands:
+            return None
+        st["x"], st["y"] = rng.choice(cands[:6])
+        st["which"], st["dim"], st["fn"] = rng.choice(BINARY), snaps[st["x"]]["dims"][0], rng.choice(pool)
+        return {"op": "binary", "self": st["x"], "which": st["which"], "other": st["y"], "probe": tag}
+
+    def binary_back(snaps):
+        return {"op": "binary", "self": st["y"], "which": st["which"], "other": st["x"], "probe": tag} if st else None
+
+    def join_xy(snaps):
+        if not st:
+            return None
+        st["n"] = len(snaps)
+        return {"op": "join", "self": st["x"], "other": st["y"], "dim": st["dim"], "match": False, "probe": tag}
+
+    def join_yx(snaps):
+        return {"op": "join", "self": st["y"], "other": st["x"], "dim": st["dim"], "match": False, "probe": tag} if st else None
+
+    def reduce_at(k):
+        def step(snaps):
+            if not st or len(snaps) < st["n"] + 2 or any(st["dim"] not in snaps[st["n"] + q]["dims"] for q in (0, 1)):
+                return None
+            return {"op": "reduce", "self": st["n"] + k, "fn": st["fn"], "dim": st["dim"], "keep": False, "probe": tag}
+        return step
+    return [pick, binary_back, join_xy, join_yx, reduce_at(0), reduce_at(1)]
 
 
 def build_sources(prog, world):
@@ -660,12 +706,25 @@ def run_build(prog, instances, rng=None, nops=0):
     init = [snap(a) for a in actions]
     ops = prog.setdefault("ops", [])
     pool = [s["fn"] for src in prog["sources"] for s in src["cells"]] + prog["pool"]
-    probes = probe_ops(rng, prog) if rng is not None else []
-    n = nops + len(probes) if rng is not None else len(ops)
-    for t in range(n):
+    plan, t = None, -1
+    while True:
+        t += 1
         before = [snap(a) for a in actions]
-        if rng is not None:
-            ops.append(choose_op(rng, before, pool, ops) if t < nops else probes[t - nops])
+        if rng is None:
+            if t >= len(ops):
+                break
+        elif t < nops:
+            ops.append(choose_op(rng, before, pool, ops))
+        else:
+            # the end of every generated program: the designed pairs, then inputs in swapped order
+            if plan is None:
+                plan = [(lambda snaps, o=o: o) for o in probe_ops(rng, prog, before)] + swap_steps(rng, pool)
+            o = None
+            while plan and o is None:
+                o = plan.pop(0)(before)
+            if o is None:
+                break
+            ops.append(o)
         o = ops[t]
         try:
             r = apply_op(o, actions, world)
@@ -985,7 +1044,7 @@ def ops_case(prog, obs):
         if "err" in st:
             continue
         o = prog["ops"][st["t"]]
-        term = cop(o, st, cells)
+        term = None if "probe" in o else cop(o, st, cells)      # the probes (plain map / reduce at the end) add nothing to the heap model
         if term is None:
             break
         steps.append(f"({term}, {cnat(st['slot'])}, {clist([carr(s, cells) for s in st['after']])})")
@@ -1037,7 +1096,7 @@ def coq_check_all(jobs, shard):
 
 # ------------------------------------------------------------------------------ driver
 def stored(prog):
-    return {"sources": prog["sources"], "pool": prog["pool"], "ops": prog.get("ops", [])}      # (the probes are among the ops)
+    return {"sources": prog["sources"], "pool": prog.get("pool", []), "ops": prog.get("ops", [])}      # (the probes are among the ops)
 
 
 def run(ctx, res):
@@ -1069,6 +1128,8 @@ def run(ctx, res):
             res.count("op:" + o["op"] + (":raised" if "err" in st else ""))
             if "varied" in o:
                 res.count("near-copy-of-earlier-op:" + o["varied"])
+            if o.get("probe") == "swapped-inputs":
+                res.count("swapped-inputs:" + o["op"] + (":raised" if "err" in st else ""))
             if "err" not in st and st["slot"] < len(st["before"]):
                 res.count("returned-an-existing-action")
             if o["op"] == "binary" and "other" in o and "err" not in st:
@@ -1092,11 +1153,15 @@ def run(ctx, res):
             res.samples.append({"ops": [o["op"] for o in prog["ops"]], "nodes": len(rows), "names": [r["name"][:20] + "..." for r in rows[:4]],
                                 "callables": sorted(cn)[:6]})
         try:
+            mine = []
             for build, rws in (("A", obs["rowsA"]), ("B", obs["rowsB"])):
                 order = all_nodes(obs[build]["actions"])
                 ids = {id(n): i for i, n in enumerate(order)}
-                name_terms.append(names_case(rws, obs[build]["groups"], ids))
-                name_meta.append(prog)
+                term = names_case(rws, obs[build]["groups"], ids)
+                if term not in mine:        # the second build normally gives the very same term: checked once
+                    mine.append(term)
+                    name_terms.append(term)
+                    name_meta.append(prog)
             term, n = ops_case(prog, obs["A"])
             op_terms.append(term)
             op_meta.append(prog)
@@ -1108,7 +1173,7 @@ def run(ctx, res):
         except ValueError as e:
             res.disagree(f"case cannot be written as a Coq term: {e}", stored(prog))
     checked = coq_check_all([("names", name_terms, "check_names"), ("ops", op_terms, "check_ops"), ("callables", call_terms, "check_callables")],
-                            shard=ctx.n(40, 100))
+                            shard=ctx.n(20, 100))
     for tag, meta, what in (
             ("names", name_meta, "Coq model of node naming disagrees with earthkit.workflows.fluent (name prefix, from_source label, or which nodes share a digest)"),
             ("ops", op_meta, "Coq heap model of fluent operations disagrees with earthkit.workflows.fluent (returned action, or the array of some action after an operation)"),
@@ -1122,19 +1187,53 @@ def run(ctx, res):
                 break
 
 
+def without_op(case, t):
+    """the case without operation t (later operations renumbered), or None if a later operation uses its result"""
+    try:
+        obs, _ = run_program({**case, "ops": [dict(o) for o in case["ops"]]})
+    except Exception:
+        return None
+    st = obs["A"]["steps"][t]
+    ops = [dict(o) for o in case["ops"]]
+    made = None if "err" in st or st["slot"] < len(st["before"]) else st["slot"]
+    rest = ops[t + 1:]
+    if made is not None:
+        if any(o.get(k) == made for o in rest for k in ("self", "other")):
+            return None
+        for o in rest:
+            for k in ("self", "other"):
+                if isinstance(o.get(k), int) and o[k] > made:
+                    o[k] -= 1
+    return {**case, "ops": ops[:t] + rest}
+
+
 def shrink(ctx, f):
-    """shortest prefix of the operations that still fails with the same signature"""
-    case = f["case"]
-    for n in range(len(case.get("ops", [])) + 1):
-        c = {**case, "ops": [dict(o) for o in case["ops"][:n]]}
+    """shortest prefix of the operations that still fails with the same signature, then without every operation
+    the failure does not need"""
+    def failing(c):
         try:
-            _, fails = run_program(c)
+            _, fails = run_program({**c, "ops": [dict(o) for o in c["ops"]]})
         except Exception:
-            continue
+            return None
         hit = [x for x in fails if x[0] == f["signature"]]
-        if hit:
-            return {"signature": f["signature"], "what": hit[0][1], "case": stored(c)}
-    return f
+        return hit[0][1] if hit else None
+    case = {k: f["case"][k] for k in ("sources", "pool", "ops") if k in f["case"]}
+    case.setdefault("ops", [])
+    best = None
+    for n in range(len(case["ops"]) + 1):
+        c = {**case, "ops": case["ops"][:n]}
+        what = failing(c)
+        if what:
+            best = (c, what)
+            break
+    if best is None:
+        return f
+    for t in reversed(range(len(best[0]["ops"]))):
+        c = without_op(best[0], t)
+        what = failing(c) if c is not None else None
+        if what:
+            best = (c, what)
+    return {"signature": f["signature"], "what": best[1], "case": stored(best[0])}
 
 
 def search(ctx, res):
